@@ -163,7 +163,7 @@ static void align_word(decoder_t *d, vh_rng *r, const model *m, int mi)
 static void run(long i, vh_rng *r)
 {
     vd_cfg cfg; decoder_t *d; dict_t *dc; const vd_lex *lx = vd_lexicon(VD_EN); model m; snap *sn; int ns = 0, nsamp = 120, k, nops, big = (i % 40 == 7);
-    long uniq = 0; char word[400], pron[1600], npron[1600]; int size0, nok = 0, nrej = 0, nboundary = 0;
+    long uniq = 0; char word[400], pron[1600], npron[1600], pend_base[200] = ""; int pend = 0, pend_exists = 0, ext = 0; int size0, nok = 0, nrej = 0, nboundary = 0;
     memset(&m, 0, sizeof(m));
     vd_cfg_default(&cfg, VD_EN);
     d = vd_decoder_fresh(&cfg);
@@ -187,7 +187,25 @@ static void run(long i, vh_rng *r)
     for (k = 0; k < nops; ++k) {
         double u = vh_unit(r); int update = big ? (k % 500 == 499) : vh_chance(r, 0.5), np, rv, before = dict_size(dc), kind, expect_ok = 1, base = -1, mi;
         if (big) u = u * 0.55;     /* mostly successful additions */
-        if (u < 0.40) { kind = 0; rand_word(r, word, sizeof(word), ++uniq); np = vh_chance(r, 0.15) ? 1 : vh_chance(r, 0.1) ? vh_range(r, 20, 40) : vh_range(r, 2, 8); rand_pron(r, d, np, pron, sizeof(pron), 1); }
+        ext = 0;
+        if (pend) {
+            /* right after a word that extends the spelling B (B + "ish..."): a numbered alternate of B itself.  It belongs to B when B is a
+             * word, and is an alternate without base when it is not -- whatever was added just before */
+            pend = 0; np = vh_range(r, 1, 5); rand_pron(r, d, np, pron, sizeof(pron), 0);
+            if (pend_exists) { kind = 1; snprintf(word, sizeof(word), "%s(%d)", pend_base, 20 + (int)(++uniq % 100000)); base = m_find(&m, pend_base); if (base < 0) base = -2; }
+            else { kind = 3; snprintf(word, sizeof(word), "%s(2)", pend_base); expect_ok = 0; }
+            vh_count("alternates_tried_right_after_a_longer_word_with_the_same_stem", 1);
+        }
+        else if (u < 0.40) {
+            kind = 0; rand_word(r, word, sizeof(word), ++uniq); np = vh_chance(r, 0.15) ? 1 : vh_chance(r, 0.1) ? vh_range(r, 20, 40) : vh_range(r, 2, 8); rand_pron(r, d, np, pron, sizeof(pron), 1);
+            if (!big && vh_chance(r, 0.12)) {
+                const char *B = NULL; int t;
+                pend_exists = vh_chance(r, 0.5);
+                if (pend_exists) { if (m.n && vh_chance(r, 0.5)) { for (t = 0; t < 20 && !B; ++t) { int c = (int)vh_below(r, (uint32_t)m.n); size_t L = strlen(m.w[c].word); if (m.w[c].base == c && L && L < 150 && m.w[c].word[L - 1] != ')') B = m.w[c].word; } } if (!B) for (t = 0; t < 20 && !B; ++t) { const char *c = sn[vh_below(r, (uint32_t)ns)].word; if (!strchr(c, '(') && strlen(c) < 150) B = c; } }
+                if (B) snprintf(pend_base, sizeof(pend_base), "%s", B); else { pend_exists = 0; snprintf(pend_base, sizeof(pend_base), "stem%ld", uniq); }
+                snprintf(word, sizeof(word), "%sish%ld", pend_base, uniq); ext = 1;
+            }
+        }
         else if (u < 0.55) {   /* numbered alternate of an added or existing word */
             kind = 1; np = vh_range(r, 1, 6); rand_pron(r, d, np, pron, sizeof(pron), 0);
             base = -1;
@@ -234,6 +252,7 @@ static void run(long i, vh_rng *r)
             if (rv < 0) { vh_viol("valid_addition_rejected", "decoder_add_word('%s','%s') returned %d", word, pron, rv); continue; }
             if (rv != before || dict_size(dc) != before + 1) vh_viol("new_id_not_dense", "added '%s': returned id %d, dictionary went from %d to %d entries", word, rv, before, dict_size(dc));
             mi = m_add(&m, word, npron, base >= 0 ? base : -1, rv); ++nok;
+            if (ext) pend = 1;
             if (base == -2) m.w[mi].base = mi;   /* base is a pre-existing word: tracked through the dictionary below */
             /* immediate effects */
             { char *pr = decoder_lookup_word(d, word); if (!pr || strcmp(pr, npron)) vh_viol("added_word_lookup", "lookup of '%s' right after adding gives '%s', added as '%s'", word, pr ? pr : "(null)", npron); ckd_free(pr); }
